@@ -381,7 +381,7 @@ def run(tier, replay=None):
                                                   "driver": l, "case": [c for c in cases if c["id"] == cid][:1], "engine": "ac"}, no_input=True)
             found = True
         # construction tie (Thm/AcBuild): the Lean model of ahocorasick.c must build EXACTLY these tables from the logged atoms
-        found = acbuild.report(chk, acbuild.compare(impl), {h.split(" ", 1)[0]: h for h in hl}, "case") or found
+        found = acbuild.report(chk, acbuild.compare(impl, {c["id"]: c["buf"] for c in cases}), {h.split(" ", 1)[0]: h for h in hl}, "case") or found
         certs_ac["construction_model_equal"] = dict(acbuild.compare.last)
         if not replay:
             found = acbuild.run_extra(chk, b, core.rng("C01-acbuild"), "text", tier) or found
